@@ -20,7 +20,7 @@ pub fn spec() -> Spec {
     Spec {
         prop: "C12",
         level: "exploration",
-        rule: "Real server via start() on loopback, raw HTTP so the Authorization header is arbitrary. Enumerated completely: every registered method (real method table) x {call, notification, batch element first/middle/last mixed with public calls, batch of only notifications} x {no header, wrong user, wrong password, right user + empty password, lower-case scheme, bad base64, two wrong headers, doubled space, suffix-extended credentials, correct} x {auth on, off}. Deny-listed + not authorised => JSON-RPC error 401 for that element and no effect (state digest through authorised reads, incl. an executing read that would stall on an open block, equal before/after); everything else served (no 401). Completeness: each method is also invoked authorised with well-formed parameters on a scratch server and classified by effect (Obs, open block, pool); every method classified mutating must have been refused in the unauthorised sweep; afterwards a fixed authorised script must answer exactly as on a twin server that never saw the sweep. Non-trivial = matrix cell whose expectation is 'refused' or 'state must be unchanged'.",
+        rule: "Real server via start() on loopback, raw HTTP so the Authorization header is arbitrary. Enumerated completely: every registered method (real method table) x {call, notification, batch element first/middle/last mixed with public calls, batch of only notifications; for indexer-only methods also: string id, batch of one, last of a 31-element batch, two indexer-only calls in one batch, notification between public calls} x {no header, wrong user, wrong password, right user + empty password, lower-case scheme, bad base64, two wrong headers, doubled space, suffix-extended credentials, correct} x {auth on, off}. Deny-listed + not authorised => JSON-RPC error 401 for that element and no effect (state digest through authorised reads, incl. an executing read that would stall on an open block, equal before/after); everything else served (no 401). Completeness: each method is also invoked authorised with well-formed parameters on a scratch server and classified by effect (Obs, open block, pool); every method classified mutating must have been refused in the unauthorised sweep; afterwards a fixed authorised script must answer exactly as on a twin server that never saw the sweep. Non-trivial = matrix cell whose expectation is 'refused' or 'state must be unchanged'.",
         assumptions: vec!["a request carrying two Authorization headers of which one is correct is not judged (HTTP leaves the choice to the server)".into()],
         exhaustive: true,
         min_nontrivial: 2,
@@ -213,7 +213,8 @@ fn sweep(ctx: &WorkerCtx, rep: &mut WorkerReport, auth: bool, methods: &[String]
     };
     let t = Duration::from_secs(60);
     let mut dg = digest(&srv.addr, &dir);
-    let forms = ["call", "notification", "batch-first", "batch-middle", "batch-last", "batch-notifications"];
+    // the last five forms are only sent for indexer-only methods (they add nothing for public ones)
+    let forms = ["call", "notification", "batch-first", "batch-middle", "batch-last", "batch-notifications", "call-string-id", "batch-single", "batch-long-last", "batch-two-denied", "batch-notification-mixed"];
     'outer: for (vname, headers, authorised_hdr) in variants {
         let authorised = *authorised_hdr || !auth;
         for m in methods {
@@ -228,12 +229,25 @@ fn sweep(ctx: &WorkerCtx, rep: &mut WorkerReport, auth: bool, methods: &[String]
                 let notif = json!({"jsonrpc": "2.0", "method": m, "params": params});
                 let p1 = json!({"jsonrpc": "2.0", "id": 1, "method": "eth_chainId", "params": []});
                 let p2 = json!({"jsonrpc": "2.0", "id": 2, "method": "eth_blockNumber", "params": []});
+                let extended = ["call-string-id", "batch-single", "batch-long-last", "batch-two-denied", "batch-notification-mixed"].contains(&form);
+                if extended && !deny.contains(m) {
+                    continue;
+                }
                 let body = match form {
                     "call" => target.clone(),
                     "notification" => notif.clone(),
                     "batch-first" => json!([target, p1, p2]),
                     "batch-middle" => json!([p1, target, p2]),
                     "batch-last" => json!([p1, p2, target]),
+                    "call-string-id" => json!({"jsonrpc": "2.0", "id": "seven", "method": m, "params": params}),
+                    "batch-single" => json!([target]),
+                    "batch-long-last" => {
+                        let mut v: Vec<Value> = (0..30).map(|k| json!({"jsonrpc": "2.0", "id": 100 + k, "method": if k % 2 == 0 { "eth_chainId" } else { "eth_blockNumber" }, "params": []})).collect();
+                        v.push(target.clone());
+                        Value::Array(v)
+                    }
+                    "batch-two-denied" => json!([json!({"jsonrpc": "2.0", "id": 8, "method": "brc20_clearCaches", "params": []}), p1, target]),
+                    "batch-notification-mixed" => json!([p1, notif, p2]),
                     _ => json!([notif, notif]),
                 };
                 let must_refuse = deny.contains(m) && !authorised;
@@ -276,8 +290,15 @@ fn sweep(ctx: &WorkerCtx, rep: &mut WorkerReport, auth: bool, methods: &[String]
                 let cell = format!("auth={} hdr={} form={} method={}", auth, vname, form, m);
                 if must_refuse {
                     rep.nontrivial(format!("{}:{}:{}:{}", auth, vname, form, m));
-                    if form == "call" || form.starts_with("batch-") && form != "batch-notifications" {
-                        let el = element_by_id(&v, 7);
+                    if form.starts_with("call") || form.starts_with("batch-") && form != "batch-notifications" && form != "batch-notification-mixed" {
+                        let el = if form == "call-string-id" { if v.get("id").and_then(|i| i.as_str()) == Some("seven") { Some(&v) } else { None } } else { element_by_id(&v, 7) };
+                        if form == "batch-two-denied" {
+                            let first = element_by_id(&v, 8).and_then(|e| e.get("error")).and_then(|e| e.get("code")).and_then(|c| c.as_i64());
+                            if first != Some(401) {
+                                violation(rep, "C12", ctx.seed, &format!("not-refused:{}:{}", form, vname), format!("{}: the first of two indexer-only calls in one batch was not answered with 401: {}", cell, &resp.body[..resp.body.len().min(300)]), json!({"cell": cell, "request": body, "response": v}));
+                                break 'outer;
+                            }
+                        }
                         let code = el.and_then(|e| e.get("error")).and_then(|e| e.get("code")).and_then(|c| c.as_i64());
                         let msg = el.and_then(|e| e.get("error")).and_then(|e| e.get("message")).and_then(|c| c.as_str()).unwrap_or("");
                         if code != Some(401) || msg != "Unauthorized" {
@@ -288,7 +309,7 @@ fn sweep(ctx: &WorkerCtx, rep: &mut WorkerReport, auth: bool, methods: &[String]
                         if rep.samples.len() < 2 {
                             rep.sample(json!({"cell": cell, "request": body, "response": v}));
                         }
-                        if form.starts_with("batch-") {
+                        if ["batch-first", "batch-middle", "batch-last"].contains(&form) {
                             // the permitted elements of the same batch are served
                             for id in [1, 2] {
                                 let ok = element_by_id(&v, id).map(|e| e.get("result").is_some()).unwrap_or(false);
